@@ -468,7 +468,9 @@ def model_defs(model):
 # --------------------------------------------------------------------------------------------
 NAME_POOL = ["x", "y", "z", "u", "v", "w", "m", "h", "n", "q", "r", "s", "c", "g", "k", "Vm", "Ca_i", "Na", "K_o",
              "alpha", "beta", "gam", "tau", "rho", "a1", "b2", "x_1", "_p", "A", "B", "Cm", "I_Na", "i_K", "phi",
-             "kf", "kb", "J", "f0", "w_inf", "xr", "yy", "lam", "mu", "nu", "om", "th", "ze", "et"]
+             "kf", "kb", "J", "f0", "w_inf", "xr", "yy", "lam", "mu", "nu", "om", "th", "ze", "et",
+             # names that differ only in case (F / f, R / r ...): a case-insensitive sort key is not total
+             "F", "f", "R", "H", "M", "N", "X", "Y", "V", "G", "K", "Q", "S", "U", "W", "Z", "C", "a", "b"]
 
 LITS = ["0", "1", "2", "3", "4", "5", "7", "10", "0.5", "0.25", "1.5", "2.0", "0.1", "0.3", "3.14", "2.5e-1",
         "1e-3", "1E2", "12.75", "0.125", "1e3", "6.02", "0.04", "100", "1.0"]
